@@ -55,12 +55,33 @@ def model_outputs(ctx, records, driver="Ident"):
     lines = [l for r in records for l in r["lines"]]
     if not lines:
         return [[] for _ in records]
-    outs = common.run_driver(driver, lines)
+    flagrecs = [r["declflags"] for r in records if r.get("declflags")] if driver == "Ident" else []
+    for f in flagrecs:
+        if "error" in f:
+            raise RuntimeError(f"declaration flags of a library cannot be read: {f['error']}")
+    outs = common.run_driver(driver, lines + [f["line"] for f in flagrecs])
     res, i = [], 0
     for r in records:
         res.append(outs[i:i + len(r["lines"])])
         i += len(r["lines"])
+        for k, v in (r.get("argsrc") or {}).items():
+            # how many arguments reached the model as declarations (flags derived by `mkArg`) / with the real object's flags;
+            # how many tags, added dependencies and submission environments the model was given
+            name = "model_input_" + k.replace(":", "_")
+            ctx.extra_cov[name] = ctx.extra_cov.get(name, 0) + v
+    compare_decl_flags(ctx, flagrecs, outs[i:])
     return res
+
+
+def compare_decl_flags(ctx, flagrecs, outs):
+    """the flags `ArgDecl.mkArg` derives from each declaration of a generated library vs the real `Argument` object"""
+    for f, out in zip(flagrecs, outs):
+        for c, mflags, iflags in zip(f["line"]["classes"], out.get("flags", []), f["impl"]["flags"]):
+            for d, m, im in zip(c["decls"], mflags, iflags):
+                ctx.count("declaration_flags_compared", d["kind"] + (":optional" if d["optional"] else "") + (":default" if d["attr"] else ""))
+                if m != im:
+                    ctx.disagree({"class": c["cls"], "declaration": d}, m, im,
+                                 "the flags the model derives from the declaration differ from the real Argument object")
 
 
 def permute_graph(rng, g):
